@@ -8,9 +8,17 @@ from concurrent.futures import ThreadPoolExecutor
 import vf, yanggen
 from vf import Infra, log
 
+# leaf names whose schema path (/vg/top/<n>, /vg/top/config/<n>, /vg/top/state/<n>) hashes, with the
+# FNV-1 based numbering of protogen, to field number 0, into 19000-19999, into 1-1000, or to the number
+# of a sibling; found by exhaustive search over the documented hash (see DESIGN.md, C28)
+ADV_NAMES = ["z3ae7j0", "z1xmw0", "z1ya20", "q8oo7bx4", "qevyl7r6",
+             "zf44rl5", "z2emm0", "z90c40", "qeqw1u94", "q4bax692",
+             "zj52nwv", "z8b7b0", "ze8t60", "q4p4itx3", "q9uylrx1"]
+
 SG_CFG = """SPECIFICATION Spec
 CONSTANTS
   Quick = %s
+  AdvNames = {%s}
 INVARIANT ExactlyOnce
 INVARIANT PathsDistinct
 INVARIANT StateExcluded
@@ -47,8 +55,9 @@ def flagset(name, beh):
 FLAGSETS = ["min", "full", "alt"]
 
 
-def model_cases(work, tier):
-    mc = vf.run_tlc(work, "SchemaGen", SG_CFG % ("TRUE" if tier == "quick" else "FALSE"), tag="schemagen", workers=16, timeout=3000)
+def model_cases(work, tier, adv=False):
+    names = ", ".join('"%s"' % n for n in ADV_NAMES) if adv else ""
+    mc = vf.run_tlc(work, "SchemaGen", SG_CFG % ("TRUE" if tier == "quick" else "FALSE", names), tag="schemagen", workers=16, timeout=3000)
     cases = []
     for l in open(mc["out"], errors="replace"):
         if l.startswith('"GEN '):
